@@ -1580,7 +1580,8 @@ theorem ladder_of_prim (L : Ladder) (cpp : Bool) (N : Nat) (d : Nat) (st st1 : S
 
 /-- what the model (and cppcheck) builds for `( a * b = c ) ;`: skipDecl jumps over `a *`, the tree is `=`(b, c) -/
 theorem declWitness_parse {L : Ladder} (hL : L.WF = true) (cpp : Bool)
-    (hg : Gram L true L.levels (bin ['='] (var ['b']) (var ['c'])) = true) (hM : 1 ≤ L.maxDepth) :
+    (hg : Gram L true L.levels (bin ['='] (var ['b']) (var ['c'])) = true) (hM : 1 ≤ L.maxDepth)
+    (hgd : L.declVarGuard = false) :
     astOf L cpp (declWitness.print ++ [Tok.op [';']]) =
       .ok ⟨declWitness.print.reverse, [Tok.op [';']], [⟨4, .node ['='] (.leaf ['b']) (.leaf ['c'])⟩], 0⟩ := by
   have hW : declWitness.print ++ [Tok.op [';']] =
@@ -1613,10 +1614,10 @@ theorem declWitness_parse {L : Ladder} (hL : L.WF = true) (cpp : Bool)
     have t0 : term false 0 st0 = .ok ⟨[Tok.var ['b'], Tok.op ['*'], Tok.var ['a'], Tok.lp], [Tok.op ['='], Tok.var ['c'], Tok.rp, Tok.op [';']], [⟨3, .leaf ['b']⟩], 0⟩ := by rfl
     have t0' : term false 0 st0' = .ok ⟨[Tok.var ['b'], Tok.op ['*'], Tok.var ['a'], Tok.lp], [Tok.op ['='], Tok.var ['c'], Tok.rp, Tok.op [';']], [⟨3, .leaf ['b']⟩], 0⟩ := by rfl
     unfold primN
-    rw [p3.eq_1, p3.eq_1 (st := st0)]
+    rw [hgd, p3.eq_1, p3.eq_1 (st := st0)]
     simp only [if_true, p2, t0, t0']
     simp only [st0, st0', List.length_cons, List.length_nil, Nat.reduceAdd, Nat.reduceLeDiff, if_true]
-    cases loop2 L.maxDepth cpp (innerN L cpp 7) 0 _ with
+    cases loop2 L.maxDepth cpp false (innerN L cpp 7) 0 _ with
     | error e => intro h; simp at h
     | ok st1 =>
       simp only
